@@ -51,6 +51,8 @@ def configs(tier, seed):
         _cfg((2, 4, 4), [(2, 4, 1)], 1, "uint16", "uint16", dlay="flat"),
         _cfg((4, 2, 4), [(1, 2, 4), (4, 1, 2)], 1, "uint8", "uint8", dlay="gzip"),
         _cfg((3, 4, 2), [(3, 1, 2)], 1, "uint8", "uint16", slay="gzip"),
+        # multi-channel compressed_segmentation destination (channels may share label sets)
+        _cfg((2, 2, 1), [(2, 2, 1)], 2, "uint32", "uint32", denc="compressed_segmentation", cost=8),
         # remote sources: the source directory is served by the model HTTP server (flat layout, gzip on/off)
         _cfg((3, 2, 2), [(2, 2, 2), (2, 1, 1)], 1, "uint16", "uint16", slay="flat", dlay="deep", remote=True),
         _cfg((2, 2, 3), [(2, 2, 2)], 2, "uint8", "uint32", slay="flat_gzip", dlay="sharded", remote=True),
